@@ -58,6 +58,7 @@ fn run_script(scn: &str, out: &str, from: usize, count: usize) {
                 pl = interp::Interp::new();
                 pl.run_case(&j)
             }
+            "zst" => interp::Interp::<elems::TkZ>::new().run_case(&j),
             _ => {
                 tk = interp::Interp::new();
                 tk.run_case(&j)
